@@ -822,6 +822,9 @@ def run(tier: str) -> int:
         ks = sorted(sw.res)
         o.sample({"start": starts[sw.sid]["chain"][0][0], "flow": sw.flow, "kill": ks[-3], "files": sw.res[ks[-3]]["obs"], "reopen": sw.res[ks[-3]]["reopen"]})
     o.exhaustive = thorough
+    # the pipeline around the backup (spec/Pipeline.tla, clause P2: the backup precedes every override)
+    import pipeline
+    common.with_engine(o, "pipeline", lambda: pipeline.extend(o, tier, "C11"))
     return o.finish()
 
 
@@ -829,6 +832,9 @@ def run(tier: str) -> int:
 def replay(path: str) -> int:
     v = json.loads(Path(path).read_text())
     case = v["case"]
+    if case.get("engine") == "pipeline":
+        import pipeline
+        return pipeline.replay(path)
     print("why:", v["why"])
     common.use_repo()
     with Scratch("c11r-") as root:
